@@ -167,6 +167,10 @@ func AbstractFloatArith(on bool) {}
 // arbitrary (value, ok|error) pair under gosym (strconv itself is trusted).
 func OpaqueParseFloat(on bool) {}
 
+// BoundedChans: under gosym (sequential mode: go statements run to
+// completion) a send on a full buffered channel is a deadlock from here on.
+func BoundedChans(on bool) {}
+
 // SplitDiv makes gosym decide a quotient of non-negative operands with a
 // symbolic divisor by case split (q = k iff k*y <= x < (k+1)*y, linear) for
 // k up to a cap, instead of the non-linear div term.
